@@ -90,7 +90,7 @@ class Q:
         return b.u64.reshape(n, 4).copy()
 
 
-def product(qc, kind, impl, x_lanes, y_lanes, off=0, pre=None):
+def product(qc, kind, impl, x_lanes, y_lanes, off=0, pre=None, same=False):
     """kind: baa|bbb|bbc|x2c1|x2c2.  x_lanes / y_lanes: lists of elements; an element of layout a/b is 4 uint64 lanes, of
     layout c is 4 pairs (8 uint32).  For x2 kinds, x has 2 elements per term and y has 2 (1 col) or 4 (2 cols).
     Returns list of result elements (each 4 Python ints), or None if the memory contract was broken."""
@@ -102,12 +102,12 @@ def product(qc, kind, impl, x_lanes, y_lanes, off=0, pre=None):
     ye = {"x2c1": 2, "x2c2": 4}.get(kind, 1)
     ell = len(x_lanes) // xe
     X = Buf(32 * len(x_lanes), off=off, fill=0x21)
-    Y = Buf(32 * len(y_lanes), off=off, fill=0x22)
+    Y = Buf(32 * len(y_lanes), off=off, fill=0x22) if not same else X      # same: the very same buffer passed as both operands
     nres = {"x2c1": 2, "x2c2": 4}.get(kind, 1)
     R = Buf(32 * nres, off=off, fill=0x23)
     if len(x_lanes):
         X.u64[:] = np.array(x_lanes, dtype=np.uint64).reshape(-1)
-    if len(y_lanes):
+    if len(y_lanes) and not same:
         if base == "bbc":
             Y.view(np.uint32)[:] = np.array(y_lanes, dtype=np.uint32).reshape(-1)
         else:
